@@ -498,6 +498,18 @@ Definition wf_pkg (p : pkg) : bool :=
                     | _ => true
                     end) (pk_decls p).
 
+(** The property at full strength: for every package, every generated row denotes what the contract
+    prescribes for its declaration, the same names are bound, every wrapper forwards, and the
+    generated file compiles. *)
+Definition c18_statement : Prop :=
+  forall p, wf_pkg p = true ->
+    forallb (decl_agreeb p) (pk_decls p) = true
+    /\ map fst (y_vals p) = map fst (g_vals p)
+    /\ map fst (y_typs p) = map fst (g_typs p)
+    /\ map fst (y_wraps p) = map fst (g_wraps p)
+    /\ (forall name i, wf_iface i = true -> forwards (y_wrap (y_prefix (pk_ipath p)) name i) i)
+    /\ y_compiles p = true.
+
 (** Example packages used by the refutation theorems (each replayed on the real tool by the harness). *)
 Definition ex_pkg (name ipath : str) (ds : list decl) : pkg := mkPkg name ipath ipath 23 ds.
 
